@@ -496,6 +496,51 @@ pub fn gen_c20(prop: &str, tier: Tier, rng: &mut Rng, seed: u64, run: u64) -> Pl
     plan
 }
 
+/// C16(a) device share: the four own/partner presence combinations of a terminal read,
+/// and Axle<0..8>::new followed by reads and an update of every terminal.
+pub fn gen_c16(prop: &str, _tier: Tier, rng: &mut Rng, seed: u64, run: u64) -> Plan {
+    let mut plan = Plan::new("device", prop, seed, run);
+    let mut st = Stamps::new(rng, true, false);
+    if run % 2 == 0 {
+        plan.sets("devs", "ext;ext");
+        let combo = (run / 2) % 4;
+        plan.push("C", &[0, 1]);
+        if combo & 1 == 1 {
+            let t = st.next(rng);
+            state_op(&mut plan, rng, 0, t, 1.0);
+        }
+        if combo & 2 == 2 {
+            let t = st.next(rng);
+            state_op(&mut plan, rng, 1, t, 1.0);
+        }
+        plan.push("D", &[0]);
+        plan.push("C", &[1, 0]);
+    } else {
+        let n = ((run / 2) % 9) as usize;
+        let mut specs = vec![DevSpec::Axle(n)];
+        for _ in 0..n.min(3) {
+            specs.push(DevSpec::Ext);
+        }
+        plan.sets("devs", &specs_text(&specs));
+        for j in 0..n.min(3) {
+            plan.push("C", &[j as i64, (n + j) as i64]);
+        }
+        for j in 0..n {
+            if rng.chance(0.6) {
+                let t = st.next(rng);
+                state_op(&mut plan, rng, j, t, 1.0);
+            }
+            if rng.chance(0.3) {
+                let t = st.next(rng);
+                cmd_op(&mut plan, rng, j, t);
+            }
+        }
+        plan.push("UD", &[0]);
+        plan.push("UD", &[0]);
+    }
+    plan
+}
+
 pub fn generate(prop: &str, tier: Tier, rng: &mut Rng, seed: u64, run: u64) -> Plan {
     match prop {
         "C08" => gen_c08(prop, tier, rng, seed, run),
